@@ -376,6 +376,17 @@ func (x *Exec) finish(fd *ast.FuncDecl) {
 			}
 		}
 	}
+	if ct.Pure {
+		for obj, v := range x.entry.vars {
+			pv, ok := obj.(*types.Var)
+			if !ok || !(x.isParam(pv) || (x.sig.Recv() != nil && pv == x.sig.Recv())) || !containsObj(v) {
+				continue
+			}
+			if fv, ok := final.vars[pv]; ok {
+				c.oblige("frame:pure", ":"+pv.Name(), final.pc, vEqRepr(v, fv), fd.Body.Rbrace, "object argument "+pv.Name()+" is left unchanged (contract says pure)")
+			}
+		}
+	}
 	for k, en := range ct.Ensures {
 		g := env.evalBool(en.E)
 		parts := splitConj(g)
